@@ -207,6 +207,45 @@ func runC09Benign(rc *runCtx) *RunResult {
 			return res
 		}
 	}
+	// the value after an in-place mutation is a value too: its encoding must decode to it (an
+	// encoder that remembers something about the value from the previous Encode fails here)
+	if t.Chance(400) {
+		var mutated any
+		switch x := v.(type) {
+		case *s2.Loop:
+			x.Invert()
+			mutated = x
+		case *s2.Polygon:
+			x.Invert()
+			mutated = x
+		}
+		if mutated != nil {
+			rc.inc("evals", 1)
+			rc.inc("encode_after_invert", 1)
+			var mb bytes.Buffer
+			var dv any
+			var derr, eerr error
+			if pv := guard("encode-decode-after-invert:"+ct.name, func() {
+				eerr = ct.encode(mutated, &mb)
+				if eerr == nil {
+					dv, derr = ct.decode(simio.NewShapedReader(mb.Bytes(), simio.NoReadFaults(), simio.ShapeByteReader))
+				}
+			}); pv != nil {
+				res.Viol = pv
+				return res
+			}
+			if eerr != nil || derr != nil {
+				res.Viol = &Violation{Kind: "decode-error-benign", Site: ct.name + "/after-invert", Detail: fmt.Sprintf("encode (%v) / decode (%v) of %s after Invert failed", eerr, derr, describeValue(ct, v))}
+				return res
+			}
+			// (bounds are not compared here: the bound of an inverted loop is allowed to be loose, and
+			// the compressed format recomputes it on decode)
+			if d := equalNoBounds(mutated, dv); d != "" {
+				res.Viol = &Violation{Kind: "roundtrip-mismatch", Site: ct.name + fmtSuffix(formatOf(mb.Bytes(), ct)) + "/after-invert", Detail: fmt.Sprintf("%s was encoded, inverted in place and encoded again; decoding the second encoding does not give the inverted value: %s", describeValue(ct, v), d)}
+				return res
+			}
+		}
+	}
 	return res
 }
 
@@ -255,6 +294,24 @@ func runC09Hard(rc *runCtx) *RunResult {
 	}
 	good := w0.Data
 	nw := w0.Calls
+	// (this process has just been through many failed encodes of other values: the fault-free
+	// encoding must still be right)
+	{
+		var dv any
+		var derr error
+		if pv := guard("decode:"+ct.name, func() { dv, derr = ct.decode(simio.NewShapedReader(good, simio.NoReadFaults(), simio.ShapeByteReader)) }); pv != nil {
+			res.Viol = pv
+			return res
+		}
+		if derr != nil {
+			res.Viol = &Violation{Kind: "decode-error-benign", Site: ct.name + "/after-failed-encodes", Detail: fmt.Sprintf("the fault-free encoding of %s (made after earlier encodes in this process had failed) does not decode: %v", describeValue(ct, v), derr)}
+			return res
+		}
+		if d := ct.equal(v, dv); d != "" {
+			res.Viol = &Violation{Kind: "roundtrip-mismatch", Site: ct.name + "/after-failed-encodes", Detail: fmt.Sprintf("the fault-free encoding of %s (made after earlier encodes in this process had failed) decodes to a different value: %s", describeValue(ct, v), d)}
+			return res
+		}
+	}
 	res.Sig = fnv(good) ^ uint64(nw)<<40
 	res.Nontrivial = nw >= 2
 	rc.inc("values_"+ct.name, 1)
@@ -313,5 +370,30 @@ func runC09Hard(rc *runCtx) *RunResult {
 			return res
 		}
 	}
+	// after all those failures a fault-free encode must still produce the same bytes
+	wl := &simio.Writer{Plan: simio.NoWriteFaults()}
+	if err := ct.encode(v, wl); err != nil || !bytes.Equal(wl.Data, good) {
+		res.Viol = &Violation{Kind: "encode-nondeterministic", Site: ct.name + "/after-failed-encodes", Detail: fmt.Sprintf("after %d failed encodes of %s a fault-free Encode gives err=%v and %d bytes that differ from the first fault-free encoding (%d bytes) at byte %d", nw*4+len(good), describeValue(ct, v), err, len(wl.Data), len(good), firstDiffBytes(wl.Data, good))}
+		return res
+	}
 	return res
+}
+
+// equalNoBounds: bit-identical vertices, order, depths and origin flags; bounds ignored.
+func equalNoBounds(a, b any) string {
+	switch x := a.(type) {
+	case *s2.Loop:
+		return eqLoop(x, b.(*s2.Loop), false)
+	case *s2.Polygon:
+		y := b.(*s2.Polygon)
+		if x.NumLoops() != y.NumLoops() {
+			return fmt.Sprintf("loop count %d != %d", x.NumLoops(), y.NumLoops())
+		}
+		for i := 0; i < x.NumLoops(); i++ {
+			if s := eqLoop(x.Loop(i), y.Loop(i), false); s != "" {
+				return fmt.Sprintf("loop %d: %s", i, s)
+			}
+		}
+	}
+	return ""
 }
